@@ -310,6 +310,7 @@ def layered_grammar(rng):
 def check_grammar(job):
     name, start, prod_texts, expect, n = job[:5]
     first = job[5] if len(job) > 5 else None  # work splitting: pin the first token
+    max_paths = job[6] if len(job) > 6 else 60000
     out = {"grammar": name, "n": n, "paths": 0, "obligations": 0, "discharged": 0, "candidates": [], "unknown": 0,
            "accepted": 0, "errors": 0, "conflicts": None}
     try:
@@ -439,7 +440,7 @@ def check_grammar(job):
         parser.action = sym_action
         try:
             with pysym.instrument():
-                st, complete = pysym.explore(body, on_path, max_paths=60000, timeout_ms=10000)
+                st, complete = pysym.explore(body, on_path, max_paths=max_paths, timeout_ms=10000)
         finally:
             parser.action = saved
         if not complete:
@@ -540,10 +541,11 @@ def main(tier):
     emb = sorted(module_ir.PRODUCTIONS)
     emb_terms = Oracle(module_ir.EXPRESSION_START_SYMBOL, emb).terminals
     for first in [""] + list(emb_terms):
-        jobs.append(("emboss expression", module_ir.EXPRESSION_START_SYMBOL, emb, "lr1", 4 if tier == "quick" else 5, first))
+        jobs.append(("emboss expression", module_ir.EXPRESSION_START_SYMBOL, emb, "lr1", 4 if tier == "quick" else 5, first,
+                     60000 if tier == "quick" else 400000))
     if tier == "thorough":
         for first in [""] + list(emb_terms):
-            jobs.append(("emboss module", module_ir.START_SYMBOL, emb, "lr1", 5, first))
+            jobs.append(("emboss module", module_ir.START_SYMBOL, emb, "lr1", 5, first, 400000))
     jobs.sort(key=lambda j: 0 if j[0].startswith("emboss") else 1)
     with multiprocessing.Pool(common.ncpu()) as pool:
         results = pool.map(check_grammar, jobs, chunksize=1)
